@@ -105,7 +105,64 @@ macro_rules! rt_value {
     }};
 }
 
-fn gen_lossless(s: &S, rng: &mut Rng, i: u64, k: usize) -> Vec<u8> {
+/// decode -> encode -> decode for a type chosen by name (shared with the C16 transcripts)
+pub fn rt_named(name: &str, b: &[u8]) -> Result<Rt, String> {
+    match name {
+        "client_pin::Request" => rt_bytes!(client_pin::Request, b),
+        "credential_management::Request" => rt_bytes!(credential_management::Request, b),
+        "large_blobs::Request" => rt_bytes!(large_blobs::Request, b),
+        "SubcommandParameters" => rt_bytes!(credential_management::SubcommandParameters, b),
+        "HmacSecretInput" => rt_bytes!(get_assertion::HmacSecretInput, b),
+        "AuthenticatorOptions" => rt_bytes!(ctap2::AuthenticatorOptions, b),
+        "make_credential::Extensions" => rt_bytes!(make_credential::Extensions, b),
+        "get_assertion::ExtensionsInput" => rt_bytes!(get_assertion::ExtensionsInput, b),
+        "get_assertion::ExtensionsOutput" => rt_bytes!(get_assertion::ExtensionsOutput, b),
+        "PublicKeyCredentialRpEntity" => rt_bytes!(PublicKeyCredentialRpEntity, b),
+        "PublicKeyCredentialUserEntity" => rt_bytes!(PublicKeyCredentialUserEntity, b),
+        "PublicKeyCredentialDescriptorRef" => rt_bytes!(PublicKeyCredentialDescriptorRef, b),
+        "PublicKeyCredentialDescriptor" => rt_bytes!(PublicKeyCredentialDescriptor, b),
+        "PublicKeyCredentialParameters" => rt_bytes!(PublicKeyCredentialParameters, b),
+        "FilteredPublicKeyCredentialParameters" => rt_bytes!(FilteredPublicKeyCredentialParameters, b),
+        "EcdhEsHkdf256PublicKey" => rt_bytes!(cosey::EcdhEsHkdf256PublicKey, b),
+        "get_info::Response" => rt_bytes!(get_info::Response, b),
+        "client_pin::Response" => rt_bytes!(client_pin::Response, b),
+        "large_blobs::Response" => rt_bytes!(large_blobs::Response, b),
+        "CtapOptions" => rt_bytes!(get_info::CtapOptions, b),
+        "cosey::PublicKey" => rt_bytes!(cosey::PublicKey, b),
+        "Version" => rt_bytes!(get_info::Version, b),
+        "Extension" => rt_bytes!(get_info::Extension, b),
+        "Transport" => rt_bytes!(get_info::Transport, b),
+        "AttestationStatementFormat" => rt_bytes!(ctap2::AttestationStatementFormat, b),
+        "PinV1Subcommand" => rt_bytes!(client_pin::PinV1Subcommand, b),
+        "Subcommand" => rt_bytes!(credential_management::Subcommand, b),
+        "CredentialProtectionPolicy" => rt_bytes!(credential_management::CredentialProtectionPolicy, b),
+        other => Err(format!("harness: unknown type name {}", other)),
+    }
+}
+
+/// the bidirectional types whose canonical bytes come from the request-side tables
+pub fn schema_table() -> Vec<(&'static str, S)> {
+    vec![
+        ("client_pin::Request", schema::client_pin()),
+        ("credential_management::Request", schema::credential_management()),
+        ("large_blobs::Request", schema::large_blobs()),
+        ("SubcommandParameters", schema::cm_subcommand_params()),
+        ("HmacSecretInput", schema::hmac_secret_input()),
+        ("AuthenticatorOptions", schema::options()),
+        ("make_credential::Extensions", schema::mc_extensions()),
+        ("get_assertion::ExtensionsInput", schema::ga_extensions()),
+        ("get_assertion::ExtensionsOutput", schema::ga_extensions_output()),
+        ("PublicKeyCredentialRpEntity", schema::rp_entity()),
+        ("PublicKeyCredentialUserEntity", schema::user_entity()),
+        ("PublicKeyCredentialDescriptorRef", schema::descriptor_ref()),
+        ("PublicKeyCredentialDescriptor", schema::descriptor_owned()),
+        ("PublicKeyCredentialParameters", schema::param_entry().clone()),
+        ("FilteredPublicKeyCredentialParameters", S::Params),
+        ("EcdhEsHkdf256PublicKey", S::CoseEcdh),
+    ]
+}
+
+pub fn gen_lossless(s: &S, rng: &mut Rng, i: u64, k: usize) -> Vec<u8> {
     let mut g = G::new(rng);
     g.lossless = true;
     g.small = i % 2 == 0;
@@ -132,24 +189,8 @@ pub fn run(rep: &mut Rep) {
     let seed = rep.seed;
     let mut case = 0u64;
     // ---- (A) types whose canonical bytes come from the request-side specification tables
-    let table: Vec<(&'static str, S)> = vec![
-        ("client_pin::Request", schema::client_pin()),
-        ("credential_management::Request", schema::credential_management()),
-        ("large_blobs::Request", schema::large_blobs()),
-        ("SubcommandParameters", schema::cm_subcommand_params()),
-        ("HmacSecretInput", schema::hmac_secret_input()),
-        ("AuthenticatorOptions", schema::options()),
-        ("make_credential::Extensions", schema::mc_extensions()),
-        ("get_assertion::ExtensionsInput", schema::ga_extensions()),
-        ("get_assertion::ExtensionsOutput", schema::ga_extensions_output()),
-        ("PublicKeyCredentialRpEntity", schema::rp_entity()),
-        ("PublicKeyCredentialUserEntity", schema::user_entity()),
-        ("PublicKeyCredentialDescriptorRef", schema::descriptor_ref()),
-        ("PublicKeyCredentialDescriptor", schema::descriptor_owned()),
-        ("PublicKeyCredentialParameters", schema::param_entry().clone()),
-        ("FilteredPublicKeyCredentialParameters", S::Params),
-        ("EcdhEsHkdf256PublicKey", S::CoseEcdh),
-    ];
+    let table = schema_table();
+
     for (name, s) in &table {
         let k = schema::n_optional(s);
         let n = rep.n(1200, 120_000);
@@ -163,24 +204,7 @@ pub fn run(rep: &mut Rep) {
             if !rep.begin(&format!("from-bytes/{}", name)) {
                 continue;
             }
-            let r = match *name {
-                "client_pin::Request" => rt_bytes!(client_pin::Request, &b),
-                "credential_management::Request" => rt_bytes!(credential_management::Request, &b),
-                "large_blobs::Request" => rt_bytes!(large_blobs::Request, &b),
-                "SubcommandParameters" => rt_bytes!(credential_management::SubcommandParameters, &b),
-                "HmacSecretInput" => rt_bytes!(get_assertion::HmacSecretInput, &b),
-                "AuthenticatorOptions" => rt_bytes!(ctap2::AuthenticatorOptions, &b),
-                "make_credential::Extensions" => rt_bytes!(make_credential::Extensions, &b),
-                "get_assertion::ExtensionsInput" => rt_bytes!(get_assertion::ExtensionsInput, &b),
-                "get_assertion::ExtensionsOutput" => rt_bytes!(get_assertion::ExtensionsOutput, &b),
-                "PublicKeyCredentialRpEntity" => rt_bytes!(PublicKeyCredentialRpEntity, &b),
-                "PublicKeyCredentialUserEntity" => rt_bytes!(PublicKeyCredentialUserEntity, &b),
-                "PublicKeyCredentialDescriptorRef" => rt_bytes!(PublicKeyCredentialDescriptorRef, &b),
-                "PublicKeyCredentialDescriptor" => rt_bytes!(PublicKeyCredentialDescriptor, &b),
-                "PublicKeyCredentialParameters" => rt_bytes!(PublicKeyCredentialParameters, &b),
-                "FilteredPublicKeyCredentialParameters" => rt_bytes!(FilteredPublicKeyCredentialParameters, &b),
-                _ => rt_bytes!(cosey::EcdhEsHkdf256PublicKey, &b),
-            };
+            let r = rt_named(name, &b);
             judge_rt(rep, name, &b, r);
         }
     }
